@@ -1,4 +1,5 @@
 """C16 — Flags: bit meanings, selection by name and derivation (correspondence + search)."""
+import logging
 import shutil
 
 import numpy as np
@@ -85,11 +86,48 @@ def canon_arg(arg):
     return arg if isinstance(arg, str) else list(arg)
 
 
+class _Warnings(logging.Handler):
+    """Collects the WARNING records of the katdal loggers while a select() call runs (fixtures.v4 silences logging
+    globally; it is re-enabled only inside the `with`)."""
+    def __init__(self):
+        super().__init__(logging.WARNING)
+        self.records = []
+
+    def emit(self, record):
+        self.records.append(record)
+
+    def __enter__(self):
+        self._disabled = logging.root.manager.disable
+        logging.disable(logging.NOTSET)
+        self._lg = logging.getLogger('katdal')
+        self._level, self._prop = self._lg.level, self._lg.propagate
+        self._lg.setLevel(logging.WARNING)
+        self._lg.propagate = False
+        self._handlers = list(self._lg.handlers)     # katdal installs its own stream handler: keep it quiet
+        self._lg.handlers = [self]
+        return self
+
+    def __exit__(self, *exc):
+        self._lg.handlers = self._handlers
+        self._lg.setLevel(self._level)
+        self._lg.propagate = self._prop
+        logging.disable(self._disabled)
+
+    def unknown_flag_warnings(self):
+        return sum(1 for r in self.records if 'is not a legitimate flag type' in str(r.msg))
+
+
 def check_selection(ctx, fmt, d, stored, lost, arg, mouts):
-    """mouts = model output for wire (1 arg): [model_v34, spec_v34, model_v2, spec_v2]."""
+    """mouts = model output for wire (1 arg): [model_v34, spec_v34, model_v2, spec_v2, number_of_warnings]."""
     model_mask, spec_mask = (mouts[2], mouts[3]) if fmt == 'v2' else (mouts[0], mouts[1])
     try:
-        d.select(flags=arg)
+        with _Warnings() as w:
+            d.select(flags=arg)
+        if len(mouts) > 4 and w.unknown_flag_warnings() != mouts[4]:
+            ctx.disagree('fmt=%s;what=unknown_name_warning;%s' % (fmt, 'missing' if w.unknown_flag_warnings() < mouts[4] else 'spurious'),
+                         dict(fmt=fmt, arg=canon_arg(arg)), w.unknown_flag_warnings(), mouts[4],
+                         'number of "not a legitimate flag type" warnings differs from the number of requested names '
+                         'that are not documented flag names')
         flags = np.asarray(d.flags[:])
         flags = flags.view(np.uint8) != 0 if flags.dtype == bool else flags != 0
         raw = np.asarray(d.raw_flags[:]) if fmt == 'v4' else stored
@@ -147,7 +185,8 @@ def run(ctx):
                 check_selection(ctx, fmt, d, stored, lost, a, mo)
                 names = a if isinstance(a, str) else ','.join(a)
                 ctx.note_case((fmt, canon_arg(a)), nontrivial=any(n in names for n in DOC) or a == 'all',
-                              sample=dict(fmt=fmt, flags=canon_arg(a), mask=mo[1] if fmt != 'v2' else mo[3]))
+                              sample=dict(fmt=fmt, flags=canon_arg(a), mask=mo[1] if fmt != 'v2' else mo[3])
+                              if i == 3 else None)
                 ctx.count('fmt=' + fmt)
                 ctx.count('argkind=' + ('str' if isinstance(a, str) else 'list'))
             # interleavings with other select() calls: flag/weight selection must not move anything else
@@ -174,7 +213,7 @@ def spec_py(a):
         names = list(a)
     m34 = sum(1 << i for i in range(8) if DOC[i] in names)
     m2 = sum(1 << (7 - i) for i in range(8) if DOC[i] in names)
-    return [m34, m34, m2, m2]
+    return [m34, m34, m2, m2, sum(1 for n in names if n not in DOC)]
 
 
 def interleave(ctx, fmt, d, stored, lost, base_vis):
@@ -464,8 +503,10 @@ def _select_kwargs(st):
 
 
 def _bit_names(diff):
+    """which bits differ, classified: data_lost / postproc (the derived ones) / stored (any other bit)."""
     d = int(np.bitwise_or.reduce(np.asarray(diff, np.uint8).ravel())) if np.size(diff) else 0
-    return '+'.join(DOC[i] for i in range(8) if d >> i & 1) or 'none'
+    names = [n for n, m in (('data_lost', 8), ('postproc', 128), ('stored', 0x77)) if d & m]
+    return '+'.join(names) or 'none'
 
 
 def run_v4cal(ctx, cfg):
@@ -537,23 +578,31 @@ def run_v4cal(ctx, cfg):
             has_dl = bool(mo[1] & 8)
             tag = 'cal=%s;postproc_selected=%s;data_lost_selected=%s' % (
                 'yes' if cfg['applycal'] else 'no', 'yes' if has_pp else 'no', 'yes' if has_dl else 'no')
+            ftag = tag + ';flags_kw_in_step=%s' % ('yes' if 'flags' in st else 'no')
             if raw.shape != ms.shape[:3] or raw.dtype != np.uint8 or flags.shape != raw.shape:
                 ctx.disagree('stream=v4cal;obs=shape', case, [raw.shape, str(raw.dtype), flags.shape], ms.shape[:3],
                              'shape / dtype of raw_flags or flags differs from the selection')
                 return
-            if not np.array_equal(raw, ms[..., 0]):
-                bad = tuple(np.argwhere(raw != ms[..., 0])[0])
-                ctx.disagree('stream=v4cal;obs=raw_flags;bits=%s;%s' % (_bit_names(raw ^ ms[..., 0].astype(np.uint8)), tag),
-                             dict(case, at=[int(b) for b in bad]), int(raw[bad]), int(ms[bad][0]),
-                             'v4 raw_flags differ from stored | data_lost | postproc under the current flag selection %r'
-                             % (sel_names,), spec=int(ms[bad][7]))
             fb = flags.view(np.uint8) != 0 if flags.dtype == bool else flags != 0
-            if flags.dtype != bool or not np.array_equal(fb, ms[..., 1] != 0):
-                bad = tuple(np.argwhere(fb != (ms[..., 1] != 0))[0]) if flags.dtype == bool else (0, 0, 0)
-                ctx.disagree('stream=v4cal;obs=flags;%s' % tag, dict(case, at=[int(b) for b in bad]),
-                             bool(fb[bad]), bool(ms[bad][1]),
-                             'v4 boolean flags differ from (derived raw byte & mask of %r) != 0' % (sel_names,),
-                             spec=bool(ms[bad][8]))
+            # property: implementation vs SPEC columns (7, 8); tie: implementation vs MODEL columns (0, 1)
+            for kind, c_raw, c_flag in (('property', 7, 8), ('tie', 0, 1)):
+                sfx = '' if kind == 'property' else ';vs=model'
+                exp_raw = ms[..., c_raw]
+                if not np.array_equal(raw, exp_raw):
+                    bad = tuple(np.argwhere(raw != exp_raw)[0])
+                    ctx.disagree('stream=v4cal;obs=raw_flags;bits=%s;%s%s' % (_bit_names(raw ^ exp_raw.astype(np.uint8)), tag, sfx),
+                                 dict(case, at=[int(b) for b in bad]), int(raw[bad]), int(ms[bad][0]),
+                                 'v4 raw_flags differ from stored | data_lost | postproc under the current flag selection %r'
+                                 % (sel_names,), spec=int(ms[bad][7]), kind=kind)
+                exp_flag = ms[..., c_flag] != 0
+                if flags.dtype != bool or not np.array_equal(fb, exp_flag):
+                    bad = tuple(np.argwhere(fb != exp_flag)[0]) if flags.dtype == bool else (0, 0, 0)
+                    ctx.disagree('stream=v4cal;obs=flags;%s%s' % (ftag, sfx), dict(case, at=[int(b) for b in bad]),
+                                 bool(fb[bad]), bool(ms[bad][1]),
+                                 'v4 boolean flags differ from (derived raw byte & mask of %r) != 0' % (sel_names,),
+                                 spec=bool(ms[bad][8]), kind=kind)
+                if np.array_equal(ms[..., 0], ms[..., 7]) and np.array_equal(ms[..., 1], ms[..., 8]):
+                    break    # model = spec on this case (always, unless a proof obligation is broken)
             exp_vis = (ms[..., 2] + 1j * ms[..., 3]) * (2.0 ** ms[..., 4])
             if not np.array_equal(vis, exp_vis.astype(np.complex64)):
                 bad = tuple(np.argwhere(vis != exp_vis.astype(np.complex64))[0])
